@@ -11,7 +11,7 @@ PROP = dict(
     corr=["Model/C19Corr.vo"],
     design_ref="DESIGN.md §6 C19, §8 (claimed partial)",
     technique="PARTIAL: Coq theorem lockset_sound for arbitrary lock/access skeletons (small-step interleaving semantics; every conflicting pair of access sites shares a lock, where the lockset of a site is what its function acquired so far plus what EVERY caller holds => conflicting accesses of different threads are never simultaneously enabled) + the boolean check decided by vm_compute on the skeleton regenerated from the source on every run, minus the named site pairs of the known finding; run-time part: the harness built with `go build -race` hammers every concurrent entry point of a real SwapService / real watchers / real policy.Policy, the race detector's reports are mapped back to skeleton sites",
-    level_text="Machine-checked proof that, over today's lock/access skeleton, any schedule of any number of threads started at the concurrent entry points enables two conflicting accesses to a shared field class at the same time only at the two site pairs of the recorded finding (or inside start-up / not-yet-published-object functions, listed with reasons). The skeleton is re-extracted from the working tree and the lockset check re-evaluated on every run; a new unsynchronised access site falls outside the exclusion and fails the theorem. Every run also executes the race-detector stress (peer messages, watcher callbacks and block notifications, payment notifications, timeouts, restart recovery, RPC-style calls and policy commands, concurrently, on three node configurations).",
+    level_text="Machine-checked proof that, over today's lock/access skeleton, any schedule of any number of threads started at the concurrent entry points enables two conflicting accesses to a shared field class at the same time only at the site pairs of the two recorded findings (or inside start-up / not-yet-published-object functions, listed with reasons). The skeleton is re-extracted from the working tree and the lockset check re-evaluated on every run; a new unsynchronised access site falls outside the exclusion and fails the theorem. Every run also executes the race-detector stress (peer messages, watcher callbacks and block notifications, payment notifications, timeouts, restart recovery, RPC-style calls and policy commands, concurrently, on three node configurations).",
     level_note="Partial by design: the theorem is about the skeleton (field and lock CLASSES with the ownership assumption that a SwapData is reached only through its machine; control flow flattened under extractor-checked balance conditions; RLock treated as exclusive under an extractor-checked side condition; only the shared object types listed in the extractor are tracked). The Go memory model, the scheduler and the race detector are run-time: a race is observed only if the stress happens to execute both accesses concurrently. Accesses from packages outside the six analysed ones (peerswaprpc, clightning, lnd, cmd) are not in the skeleton.",
     assumptions=[
         "ownership: a SwapData / SwapStateMachine instance is reached only through its own machine and the service's active map; lock and field classes stand for the instance of the swap at hand",
@@ -22,7 +22,19 @@ PROP = dict(
 )
 
 
+def _in_recover(acc):
+    # innermost first: the access is made by Recover's own, unlocked part if Recover is met before any SendEvent
+    for fr in acc.get("frames") or []:
+        if "SwapStateMachine).SendEvent" in fr:
+            return False
+        if "SwapStateMachine).Recover" in fr:
+            return True
+    return False
+
+
 def sig(c):
+    if c.get("kind") == "race" and (_in_recover(c.get("a", {})) or _in_recover(c.get("b", {}))):
+        return "race:recover-without-mutex"
     if c.get("kind") == "race":
         return "race:%s:%s:%s" % (",".join(c.get("fields") or ["?"]), c.get("fn_a"), c.get("fn_b"))
     return "stress:%s:hung" % c.get("entry")
@@ -99,7 +111,7 @@ def stress(ctx, label, dur, outdir=None, seed_shift=0):
 def run(ctx):
     q = coq_query(ctx)
     ctx.extra["lockset"] = dict(check_minus_known=q.get("ok"), unexcused_pairs=q.get("unexcused"), pairs_failing_without_any_exclusion=q.get("static_pairs"),
-                                exclusions="coq/Model/C19Corr.v: c19_known (2 site pairs of finding C19/1), c19_init_fns, c19_private_fns")
+                                exclusions="coq/Model/C19Corr.v: c19_known (site pairs of findings C19/1-2), c19_known_ops (the two unlocked calls of finding C19/2 taken out of Recover), c19_init_fns, c19_private_fns")
     if q.get("ok") is None:
         ctx.tie_breaks.append(dict(what="lockset query does not evaluate", detail=q.get("log", "")))
     elif q.get("unexcused"):
